@@ -3569,6 +3569,10 @@ def distributed_shampoo(
       precond_grad = preconditioner.preconditioned_grad(
           precond_grad,
           _maybe_dequantize_preconditioners(state.preconditioners))
+      if graft_type == GraftingType.NONE:
+        # Without grafting there is no norm transplant to carry a coupled
+        # learning rate into the preconditioned update.
+        precond_grad = precond_grad * preconditioner_multiplier
     else:
       if graft_type == GraftingType.NONE:
         logging.error("skipping preconditioning without grafting for param %s",
